@@ -148,6 +148,12 @@ type Uint64MapBuilder struct {
 }
 
 func NewUint64MapBuilder(bucketBits int, tagBits int) *Uint64MapBuilder {
+	// Bucket headers pack id >> bucketBits and the tag into a single
+	// 64 bit value, which only fits if there are at least as many bucket
+	// bits as tag bits.
+	if bucketBits < tagBits {
+		bucketBits = tagBits
+	}
 	return &Uint64MapBuilder{
 		Layout: Uint64MapLayout{
 			BucketBits: bucketBits,
